@@ -241,4 +241,13 @@ theorem label_named_template_counterexample :
     assignLabelByName [("LOOP_EXIT", 12)] (substOp (fun _ => 5) (.tmpl "LOOP_EXIT")) = .int 5 := by
   decide
 
+/-- the same block built and compiled twice (identical text, same template name) with different
+values: each compiled instance carries its own value — `compile` yields a fresh subroutine every
+time, so instantiating the first cannot leak into the second -/
+example :
+    (runH false ⟨Bk.init, [], []⟩
+      [.build (.cmds [⟨"ROT_Z", [.txt "Q0", .tmpl "a", .int 4]⟩]), .compile (fun _ => 3), .commit,
+       .build (.cmds [⟨"ROT_Z", [.txt "Q0", .tmpl "a", .int 4]⟩]), .compile (fun _ => 200), .commit]).map (·.sent)
+      = some [[⟨"ROT_Z", [.txt "Q0", .int 3, .int 4]⟩], [⟨"ROT_Z", [.txt "Q0", .int 200, .int 4]⟩]] := by rfl
+
 end NQ.C06
